@@ -28,13 +28,14 @@ theorem withCfg_nl : (L.withCfg cfg).nl = L.nl := rfl
 
 theorem withCfg_otherB (hsub : ∀ i, cfg.skip i = true → L.cfg.skip i = true) {i : Nat} (h : L.otherB i = true) :
     (L.withCfg cfg).otherB i = true := by
-  simp only [LSetup.otherB, LSetup.withCfg, Bool.or_eq_true, Bool.not_eq_true'] at h ⊢
-  rcases h with h | h
+  simp only [LSetup.otherB, LSetup.withCfg, Bool.or_eq_true, Bool.not_eq_true', Bool.and_eq_true] at h ⊢
+  refine ⟨⟨?_, h.1.2⟩, h.2⟩
+  rcases h.1.1 with h1 | h1
   · left
     cases hc : cfg.skip i with
     | false => rfl
-    | true => rw [hsub i hc] at h; cases h
-  · exact Or.inr h
+    | true => rw [hsub i hc] at h1; cases h1
+  · exact Or.inr h1
 
 theorem pureFnB_withCfg {g : Nat} {ps : List Param} {body : List Stmt} (h : L.pureFnB g ps body = true) :
     (L.withCfg cfg).pureFnB g ps body = true := h
@@ -54,21 +55,23 @@ theorem withCfg_ownStoreB (hsub : ∀ i, cfg.skip i = true → L.cfg.skip i = tr
   · exact Or.inr h2
 
 mutual
-  theorem lokB_mono (hsub : ∀ i, cfg.skip i = true → L.cfg.skip i = true) : ∀ (f : Nat) (σ : List (Option Nat)) (lc : LoopCtx)
+  theorem lokB_trans (hother : ∀ i, L.otherB i = true → (L.withCfg cfg).otherB i = true)
+      (hstore : ∀ f σ i d l e st rest, L.baseB f σ i [e] = true → L.ownStoreB f σ i d l e st rest = true →
+        (L.withCfg cfg).ownStoreB f σ i d l e st rest = true) : ∀ (f : Nat) (σ : List (Option Nat)) (lc : LoopCtx)
       (s : Stmt) (st : LS) (rest : List Stmt), lokB L f σ lc s st rest = true → lokB (L.withCfg cfg) f σ lc s st rest = true
     | f, σ, lc, .assign _ _ e b (some i) _, st, rest, h => by
         simp only [lokB, Bool.and_eq_true, withCfg_baseB, withCfg_c] at h ⊢
         refine ⟨h.1, ?_⟩
         cases b with
-        | none => exact withCfg_otherB hsub h.2
+        | none => exact hother _ h.2
         | some l =>
           simp only [Bool.and_eq_true] at h ⊢
-          exact ⟨h.2.1, withCfg_ownStoreB hsub h.2.2⟩
+          exact ⟨h.2.1, hstore _ _ _ _ _ _ _ _ h.1 h.2.2⟩
     | f, σ, lc, .assignExisting _ _ e b (some i) _, st, rest, h => by
         simp only [lokB, Bool.and_eq_true, withCfg_baseB, withCfg_inTags] at h ⊢
         refine ⟨h.1, ?_⟩
         cases b with
-        | none => exact withCfg_otherB hsub h.2
+        | none => exact hother _ h.2
         | some l =>
           have h2 := h.2
           simp only [] at h2 ⊢
@@ -76,37 +79,37 @@ mutual
           · have ho' : ((L.withCfg cfg).c.owner l == some f) = true := ho
             rw [if_pos ho] at h2
             rw [if_pos ho']
-            exact withCfg_ownStoreB hsub h2
+            exact hstore _ _ _ _ _ _ _ _ h.1 h2
           · have ho' : ¬ ((L.withCfg cfg).c.owner l == some f) = true := ho
             rw [if_neg ho] at h2
             rw [if_neg ho']
             simp only [Bool.and_eq_true] at h2 ⊢
-            exact ⟨h2.1, withCfg_otherB hsub h2.2⟩
+            exact ⟨h2.1, hother _ h2.2⟩
     | f, σ, lc, .assignIndex t e (some i) _, _, _, h | f, σ, lc, .fnDef _ _ _ (.mk _ _) none (some i) _, _, _, h
     | f, σ, lc, .ret (some e) (some i) _, _, _, h | f, σ, lc, .ret none (some i) _, _, _, h
     | f, σ, lc, .brk (some i) _, _, _, h | f, σ, lc, .cont (some i) _, _, _, h | f, σ, lc, .expr e (some i) _, _, _, h => by
         simp only [lokB, Bool.and_eq_true, withCfg_baseB, withCfg_writesOkB] at h ⊢
-        exact ⟨h.1, withCfg_otherB hsub h.2⟩
+        exact ⟨h.1, hother _ h.2⟩
     | f, σ, lc, .ifS c (.mk t _) none (some i) _, st, _, h => by
         simp only [lokB, Bool.and_eq_true, withCfg_baseB, withCfg_writesOkB, withCfg_blockOkB, withCfg_c, withCfg_ss] at h ⊢
-        exact ⟨⟨⟨h.1.1.1, withCfg_otherB hsub h.1.1.2⟩, h.1.2⟩, lokListB_mono hsub _ _ _ t _ h.2⟩
+        exact ⟨⟨⟨h.1.1.1, hother _ h.1.1.2⟩, h.1.2⟩, lokListB_trans hother hstore _ _ _ t _ h.2⟩
     | f, σ, lc, .ifS c (.mk t _) (some (.mk e _)) (some i) _, st, _, h => by
         simp only [lokB, Bool.and_eq_true, withCfg_baseB, withCfg_writesOkB, withCfg_blockOkB, withCfg_c, withCfg_ss] at h ⊢
-        exact ⟨⟨⟨⟨⟨h.1.1.1.1.1, withCfg_otherB hsub h.1.1.1.1.2⟩, h.1.1.1.2⟩, h.1.1.2⟩, lokListB_mono hsub _ _ _ t _ h.1.2⟩,
-          lokListB_mono hsub _ _ _ e _ h.2⟩
+        exact ⟨⟨⟨⟨⟨h.1.1.1.1.1, hother _ h.1.1.1.1.2⟩, h.1.1.1.2⟩, h.1.1.2⟩, lokListB_trans hother hstore _ _ _ t _ h.1.2⟩,
+          lokListB_trans hother hstore _ _ _ e _ h.2⟩
     | f, σ, lc, .loop c (.mk b _) (some i) _, st, _, h => by
         simp only [lokB, Bool.and_eq_true, withCfg_baseB, withCfg_writesOkB, withCfg_blockOkB, withCfg_c, withCfg_ss, withCfg_nl] at h ⊢
-        exact ⟨⟨⟨⟨h.1.1.1.1, withCfg_otherB hsub h.1.1.1.2⟩, h.1.1.2⟩, h.1.2⟩, lokListB_mono hsub _ _ _ b _ h.2⟩
+        exact ⟨⟨⟨⟨h.1.1.1.1, hother _ h.1.1.1.2⟩, h.1.1.2⟩, h.1.2⟩, lokListB_trans hother hstore _ _ _ b _ h.2⟩
     | f, σ, lc, .block (.mk b _) (some i) _, st, _, h => by
         simp only [lokB, Bool.and_eq_true, withCfg_baseB, withCfg_writesOkB, withCfg_blockOkB, withCfg_c, withCfg_ss] at h ⊢
-        exact ⟨⟨⟨h.1.1.1, withCfg_otherB hsub h.1.1.2⟩, h.1.2⟩, lokListB_mono hsub _ _ _ b _ h.2⟩
+        exact ⟨⟨⟨h.1.1.1, hother _ h.1.1.2⟩, h.1.2⟩, lokListB_trans hother hstore _ _ _ b _ h.2⟩
     | f, σ, lc, .fnDef _ _ ps (.mk body _) (some g) (some i) _, _, _, h => by
         simp only [lokB, Bool.and_eq_true, withCfg_baseB, withCfg_writesOkB, withCfg_blockOkB, withCfg_c, withCfg_ss, withCfg_ds,
           withCfg_scopeOwner] at h ⊢
-        exact ⟨⟨⟨⟨⟨h.1.1.1.1.1, withCfg_otherB hsub h.1.1.1.1.2⟩, h.1.1.1.2⟩, h.1.1.2⟩, pureFnB_withCfg h.1.2⟩, lokListB_mono hsub _ _ _ body _ h.2⟩
+        exact ⟨⟨⟨⟨⟨h.1.1.1.1.1, hother _ h.1.1.1.1.2⟩, h.1.1.1.2⟩, h.1.1.2⟩, pureFnB_withCfg h.1.2⟩, lokListB_trans hother hstore _ _ _ body _ h.2⟩
     | f, σ, lc, .fnDef _ _ ps (.mk body _) (some g) none _, _, _, h => by
         simp only [lokB, Bool.and_eq_true, withCfg_blockOkB, withCfg_ss, withCfg_ds, withCfg_scopeOwner] at h ⊢
-        exact ⟨⟨h.1.1, pureFnB_withCfg h.1.2⟩, lokListB_mono hsub _ _ _ body _ h.2⟩
+        exact ⟨⟨h.1.1, pureFnB_withCfg h.1.2⟩, lokListB_trans hother hstore _ _ _ body _ h.2⟩
     | _, _, _, .assign _ _ _ _ none _, _, _, _ => by simp only [lokB]
     | _, _, _, .assignExisting _ _ _ _ none _, _, _, _ => by simp only [lokB]
     | _, _, _, .assignIndex _ _ none _, _, _, _ => by simp only [lokB]
@@ -120,13 +123,19 @@ mutual
     | _, _, _, .brk none _, _, _, _ => by simp only [lokB]
     | _, _, _, .cont none _, _, _, _ => by simp only [lokB]
     | _, _, _, .expr _ none _, _, _, _ => by simp only [lokB]
-  theorem lokListB_mono (hsub : ∀ i, cfg.skip i = true → L.cfg.skip i = true) : ∀ (f : Nat) (σ : List (Option Nat)) (lc : LoopCtx)
+  theorem lokListB_trans (hother : ∀ i, L.otherB i = true → (L.withCfg cfg).otherB i = true)
+      (hstore : ∀ f σ i d l e st rest, L.baseB f σ i [e] = true → L.ownStoreB f σ i d l e st rest = true →
+        (L.withCfg cfg).ownStoreB f σ i d l e st rest = true) : ∀ (f : Nat) (σ : List (Option Nat)) (lc : LoopCtx)
       (ss : List Stmt) (post : LS), lokListB L f σ lc ss post = true → lokListB (L.withCfg cfg) f σ lc ss post = true
     | _, _, _, [], _, _ => by simp only [lokListB]
     | f, σ, lc, s :: ss, post, h => by
         simp only [lokListB, Bool.and_eq_true, withCfg_c, withCfg_nl] at h ⊢
-        exact ⟨lokB_mono hsub f σ lc s _ ss h.1, lokListB_mono hsub f σ lc ss post h.2⟩
+        exact ⟨lokB_trans hother hstore f σ lc s _ ss h.1, lokListB_trans hother hstore f σ lc ss post h.2⟩
 end
+
+theorem lokListB_mono (hsub : ∀ i, cfg.skip i = true → L.cfg.skip i = true) (f : Nat) (σ : List (Option Nat)) (lc : LoopCtx)
+    (ss : List Stmt) (post : LS) (h : lokListB L f σ lc ss post = true) : lokListB (L.withCfg cfg) f σ lc ss post = true :=
+  lokListB_trans (fun _ => withCfg_otherB hsub) (fun _ _ _ _ _ _ _ _ _ => withCfg_ownStoreB hsub) f σ lc ss post h
 
 end mono
 
